@@ -65,11 +65,9 @@ func (s *simplifier) visit(node Node) {
 	case *Word:
 		node.Parts = s.simplifyWord(node.Parts)
 	case *TestClause:
-		node.X = s.removeParensTest(node.X)
-		node.X = s.removeNegateTest(node.X)
+		node.X = s.removeParensNegateTest(node.X)
 	case *ParenTest:
-		node.X = s.removeParensTest(node.X)
-		node.X = s.removeNegateTest(node.X)
+		node.X = s.removeParensNegateTest(node.X)
 	case *BinaryTest:
 		node.X = s.unquoteParams(node.X)
 		node.X = s.removeNegateTest(node.X)
@@ -88,6 +86,18 @@ func (s *simplifier) visit(node Node) {
 		node.Y = s.removeNegateTest(node.Y)
 	case *UnaryTest:
 		node.X = s.unquoteParams(node.X)
+	}
+}
+
+// removeParensNegateTest removes redundant parentheses and negations until
+// neither applies; removing a double negation can expose parentheses.
+func (s *simplifier) removeParensNegateTest(x TestExpr) TestExpr {
+	for {
+		y := s.removeNegateTest(s.removeParensTest(x))
+		if y == x {
+			return x
+		}
+		x = y
 	}
 }
 
